@@ -153,6 +153,41 @@ Theorem C41_json_stderr_logger : forall hl c pre post json,
 Proof. exact json_stderr_logger_l. Qed.
 Print Assumptions C41_json_stderr_logger.
 
+(* SEVERAL inputs (ListInfo / ListInfoFiles and the commands built the same way): for every
+   list of inputs, text or JSON, the stdin-aware loop and the file-only function return the
+   same lines and the same success flag — also when some input is unreadable *)
+Theorem C41_multi_stream_equals_file : forall json render ins,
+  list_info_stream json render ins = list_info_files json render ins.
+Proof. exact multi_stream_equals_file_l. Qed.
+Print Assumptions C41_multi_stream_equals_file.
+
+(* failing_command_nonzero_exit over input lists: as soon as one input is unreadable both
+   variants exit non-zero and, in JSON mode, print nothing on stdout (no JSON document) *)
+Theorem C41_multi_failing_command_nonzero_exit : forall json render ins quiet,
+  existsb (fun r => negb (in_ok r)) ins = true ->
+  snd (run_multi quiet (list_info_stream json render ins)) <> 0%Z
+  /\ snd (run_multi quiet (list_info_files json render ins)) <> 0%Z
+  /\ (json = true -> stdout_of (fst (run_multi quiet (list_info_stream json render ins))) = []
+                  /\ stdout_of (fst (run_multi quiet (list_info_files json render ins))) = []).
+Proof. exact multi_failing_l. Qed.
+Print Assumptions C41_multi_failing_command_nonzero_exit.
+
+(* the command succeeds exactly when every input is readable; then JSON mode prints exactly one
+   line rendered from one entry per input, in input order *)
+Theorem C41_multi_success : forall json render ins,
+  snd (list_info_stream json render ins) = forallb in_ok ins
+  /\ (forallb in_ok ins = true ->
+      list_info_stream true render ins
+      = ([render (map (fun r => match r with IOk _ e => e | IErr => [] end) ins)], true)).
+Proof. intros json render ins. split; [apply multi_ok_iff_l|apply multi_json_success_l]. Qed.
+Print Assumptions C41_multi_success.
+
+Example C41_multi_nonvacuous :
+  list_info_stream true (fun es => [N.of_nat (List.length es)]) [IOk [[1%N]] [1%N]; IErr] = ([], false)
+  /\ list_info_stream true (fun es => [N.of_nat (List.length es)]) [IOk [[1%N]] [1%N]; IOk [[2%N]] [2%N]] = ([[2%N]], true)
+  /\ fst (list_info_stream false (fun es => []) [IOk [[1%N]] [1%N]; IErr]) = [[1%N]; []].
+Proof. vm_compute. repeat split; reflexivity. Qed.
+
 (* non-vacuity: both sinks and an error occur; the tables are non-empty and contain the helpers *)
 Example C41_nonvacuous :
   (exists tr, streamInOut ADash AEmpty (mkEnv SOk true CNew true) true = POk SrcStdin SnkStdout tr false)
